@@ -96,6 +96,12 @@ class SymFlag:
     def __bool__(self):
         return self._fork(self.t != 0)
 
+    def __contains__(self, o):
+        # enum.Flag: `other in self`  <=>  other & self == other
+        other = SymFlag.lift(o, self._w())
+        return self._fork((other & self.t) == other)
+
+
     def __eq__(self, o):
         try:
             other = SymFlag.lift(o, self._w())
@@ -118,6 +124,8 @@ class SymFlag:
         # a SymFlag stored in an AST node must answer the DataType API: delegate to the REAL function objects
         from hpl.types import DataType
         import types as _types
+        if name in ('_value_', 'value'):
+            return self  # the bits themselves: &, |, == keep working on the term
         attr = DataType.__dict__.get(name)
         if isinstance(attr, property):
             return attr.fget(self)
